@@ -143,7 +143,13 @@ impl Matcher {
 
         if max_score == 0 {
             let char_class = AsciiChar(needle[0]).char_class(&self.config);
-            for i in memmem::find_iter(haystack, needle) {
+            // `memmem::find_iter` only yields non-overlapping occurrences, but a later
+            // occurrence that overlaps an earlier one can earn a higher bonus
+            let mut search_start = 0;
+            while let Some(i) =
+                memmem::find(&haystack[search_start..], needle).map(|i| i + search_start)
+            {
+                search_start = i + 1;
                 let prev_char_class = i
                     .checked_sub(1)
                     .map(|i| AsciiChar(haystack[i]).char_class(&self.config))
